@@ -82,6 +82,8 @@ def generate(seed, tier, k):
             a["pools"][-1]["fail"] = r.randrange(0, 4)
         # history: the geometry is updated in place, the leading field is created anew on the
         # reloaded region, the other field objects of the container are kept
+        # integrands far from order one (another unit system)
+        a["mag"] = r.choice([1.0, 1.0, 1.0, 1e-12, 1e-9, 1e6])
         a["geometry_update"] = r.random() < (0.5 if fk.endswith("axi") else 0.2) and not doc["region"].get("uniform")
         a["geometry_seed"] = r.randrange(1 << 30)
         doc["array"] = a
@@ -205,7 +207,7 @@ def run_array(doc, log):
             log.count("absent-block")
             continue
         shp = block_shape(fields[i], grad_v[i], fields[j] if bil else None, grad_u[j] if bil else None)
-        funs.append(rng.normal(size=shp + trail))
+        funs.append(rng.normal(size=shp + trail) * float(a.get("mag", 1.0)))
     if bil and nf > 1 and a["mode"] == 3:
         log.count("mode3")
     kw = {}
